@@ -256,11 +256,9 @@ func fetchAuthOutput(input OmegaInput, enc *types.Encoder) ([]byte, error) {
 	if input.Addition.AuthOutput == nil {
 		return nil, nil
 	}
-	val, err := enc.Encode(&input.Addition.AuthOutput)
-	if err != nil {
-		pvmLogger.Errorf("fetch host-call case 2 encode error: %v", err)
-		return nil, err
-	}
+	// r is a blob: it is handed over as it is (never nil here, so an empty trace is still a value)
+	val := make([]byte, len(*input.Addition.AuthOutput))
+	copy(val, *input.Addition.AuthOutput)
 	return val, nil
 }
 
@@ -342,7 +340,7 @@ func fetchWorkPackage(input OmegaInput, enc *types.Encoder) ([]byte, error) {
 	if input.Addition.WorkPackage == nil {
 		return nil, nil
 	}
-	val, err := enc.Encode(&input.Addition.WorkPackage)
+	val, err := enc.Encode(input.Addition.WorkPackage)
 	if err != nil {
 		pvmLogger.Errorf("fetch host-call case 7 encode error: %v", err)
 		return nil, err
